@@ -30,7 +30,7 @@ from qstrader.signals.vol import VolatilitySignal
 assert os.path.realpath(qstrader.__file__).startswith(
     os.path.realpath(os.environ.get("QSTRADER_ROOT", "/repo"))
 ), qstrader.__file__
-settings.PRINT_EVENTS = False
+settings.PRINT_EVENTS = os.environ.get("PYVC_AMBIENT") == "1"      # (ambient re-run: the library default True, output discarded)
 
 PROPERTY = "C16"
 PROPERTIES = ["C16"]
